@@ -28,7 +28,7 @@ def geometry(ctx, kc: KitClass, rule: str, construct: Optional[str] = None) -> b
     pat = kc.pattern
     site, n, k = enzyme_geometry(kc.cutter)
     rcsite = _rc(site)
-    bad = pat.three_adjacent_groups()
+    bad = kc.pattern_error or pat.three_adjacent_groups()
     if not r.ob(rule + ".groups", name, bad is None, bad or "", where):
         return False
     ok = True
@@ -114,7 +114,7 @@ def part_erasure(ctx, kc: KitClass, rule: str, symbolic: bool = False) -> bool:
     gen = describe(p, ctx.folder, ctx.lettermap, gen_ci)
     site, n, k = enzyme_geometry(kc.cutter)
     pat = kc.pattern
-    bad = pat.three_adjacent_groups() or gen.pattern.three_adjacent_groups()
+    bad = kc.pattern_error or gen.pattern_error or pat.three_adjacent_groups() or gen.pattern.three_adjacent_groups()
     if not r.ob(rule + ".groups", kc.name, bad is None, bad or "", where):
         return False
     nset = _n_set(ctx)
